@@ -121,12 +121,15 @@ func linearAttempt(c *Ctx) {
 		if idx != nil {
 			ifs, _ := P.IfsOn(g.fn, func(cond ssa.Value) bool {
 				b, ok := cond.(*ssa.BinOp)
-				return ok && b.Op == token.EQL && b.X == idx
+				return ok && b.Op == token.EQL && (b.X == idx || b.Y == idx)
 			})
 			okd := false
 			for _, ifi := range ifs {
 				b := stripNotV(ifi.Cond).(*ssa.BinOp)
-				k, _ := constInt(b.Y)
+				k, isK := constInt(b.Y)
+				if !isK {
+					k, _ = constInt(b.X)
+				}
 				doneIdx := int64(-1)
 				for i, st := range bs.States {
 					if call, ok := st.Chan.(*ssa.Call); ok && call.Call.IsInvoke() && call.Call.Method.Name() == "Done" {
@@ -144,8 +147,14 @@ func linearAttempt(c *Ctx) {
 	var cnt *ssa.Phi
 	if ifi, ok := loopHeaderGuard(g.fn, sel); ok {
 		b := stripNotV(ifi.Cond).(*ssa.BinOp)
-		if ph, isPhi := b.X.(*ssa.Phi); isPhi && b.Op == token.LSS {
-			cnt = ph
+		isPhiV := func(v ssa.Value) bool { _, ok := v.(*ssa.Phi); return ok }
+		if op, limit, okc := cmpOf(b, isPhiV); okc && op == token.LSS {
+			ph := b.X
+			if !isPhiV(ph) {
+				ph = b.Y
+			}
+			cnt = ph.(*ssa.Phi)
+			b = &ssa.BinOp{Op: token.LSS, X: ph, Y: limit}
 			// limit is a load of the count cell, which is written only in LinearAttempt (param - 1)
 			lim := false
 			if ld, isL := isLoad(b.Y); isL {
@@ -196,7 +205,7 @@ func linearAttempt(c *Ctx) {
 				sidx := resultOf2(sel, 0)
 				ifs, _ := P.IfsOn(g.fn, func(cond ssa.Value) bool {
 					b, ok := cond.(*ssa.BinOp)
-					return ok && b.Op == token.EQL && b.X == sidx && isZero(b.Y)
+					return ok && b.Op == token.EQL && either(b, isVal(sidx), isZero)
 				})
 				if len(ifs) != 1 || !(&fq{c: c, fn: g.fn, name: g.name}).onlyViaEdge(bo, ifs[0], 0) {
 					good, why = false, "the counter is incremented on a path where the value was not sent (or not only there)"
@@ -265,8 +274,10 @@ func loopHeaderGuard(fn *ssa.Function, in ssa.Instruction) (*ssa.If, bool) {
 		if !ok {
 			continue
 		}
-		if ph, isPhi := bo.X.(*ssa.Phi); isPhi && ph.Block() == b && b.Dominates(in.Block()) {
-			return ifi, true
+		for _, v := range []ssa.Value{bo.X, bo.Y} {
+			if ph, isPhi := v.(*ssa.Phi); isPhi && ph.Block() == b && b.Dominates(in.Block()) {
+				return ifi, true
+			}
 		}
 	}
 	return nil, false
